@@ -634,6 +634,18 @@ def _eof_effects(stmts):
         stack.extend(ast.iter_child_nodes(n))
 
 
+def _eof_effects_inl(fn, stmts):
+    """_eof_effects, also looking into the private helpers called from stmts (an extracted `mark both BIOs EOF` helper)"""
+    from sa.norm import private_helper
+    yield from _eof_effects(stmts)
+    for st in stmts:
+        for c in ast.walk(st):
+            if isinstance(c, ast.Call):
+                g = private_helper(fn, c)
+                if g is not None and any(True for _ in _eof_effects(g.node.body)):
+                    yield c
+
+
 def check_eof_latch(eng, run):
     """a cancelled / timed-out receive must leave the stream usable: no end-of-stream latch is set on an exception path that a
     cancellation can take (an arm that may catch it, or a finally block)"""
@@ -646,7 +658,7 @@ def check_eof_latch(eng, run):
             if not isinstance(t, ast.Try):
                 continue
             for h in t.handlers:
-                effs = list(_eof_effects(h.body))
+                effs = list(_eof_effects_inl(fn, h.body))
                 if not effs:
                     continue
                 n_arms += 1
@@ -656,7 +668,7 @@ def check_eof_latch(eng, run):
                     run.finding("C10.eof", fn, _line_stmt(fn, effs[0].lineno), f"`{ast.unparse(effs[0])[:60]}` runs in `except {ast.unparse(h.type) if h.type else ''}`, which a cancellation can enter: "
                                 "a cancelled receive marks the stream as ended and everything the peer sends afterwards is lost")
                 run.ob("C10.eof", f"{fn.short}:except {ast.unparse(h.type)[:32] if h.type else ''}", m == "no", effects=len(effs))
-            effs = list(_eof_effects(t.finalbody))
+            effs = list(_eof_effects_inl(fn, t.finalbody))
             if effs:
                 n_arms += 1
                 run.finding("C10.eof", fn, _line_stmt(fn, effs[0].lineno), f"`{ast.unparse(effs[0])[:60]}` runs in a finally block, i.e. also when the receive is cancelled")
